@@ -352,6 +352,17 @@ class Model:
             def dealloc(self):
                 return fmeth['__dealloc__'](self)
 
+            def __len__(self):
+                # `Cudd_DagSize` counts the terminal; `Cudd_zddDagSize`,
+                # `sylvan_nodecount`, `bdd_nodecount` count decision
+                # nodes only: a constant has length 0 there, so a handle
+                # of a constant is falsy
+                node = self.node
+                if node is None or node is model.null:
+                    return 0
+                inner = 0 if node in (0, F) else 1 + len(sup(node))
+                return inner + (1 if name == 'cudd' else 0)
+
             def __del__(self):
                 try:
                     fmeth['__dealloc__'](self)
